@@ -16,8 +16,8 @@ pub struct Thread { inner: imp::Thread, agent: usize }
 
 impl Thread {
     pub fn unpark(&self) {
-        emit(&format!("unpark A{}", self.agent as isize));
         self.inner.unpark();
+        emit(&format!("unpark A{}", self.agent as isize));
     }
     pub fn name(&self) -> Option<&str> { self.inner.name() }
     pub fn verif_agent(&self) -> usize { self.agent }
